@@ -695,18 +695,6 @@ DoubleSupport::isValid(const XalanDOMChar*      theString)
 
 
 
-inline double
-modfRound(double  theValue)
-{
-    double          intPart = 0;
-
-        std::modf(theValue + 0.5, &intPart);
-
-    return intPart;
-}
-
-
-
 double
 DoubleSupport::round(double     theValue)
 {
@@ -724,43 +712,28 @@ DoubleSupport::round(double     theValue)
     }
     else if (theValue == 0)
     {
-        return 0.0;
-    }
-    else if (theValue > 0)
-    {
-        // If the value is less than the maximum value for
-        // a long, this is the fastest way to do it.
-        if (theValue < LONG_MAX)
-        {
-            return long(theValue + 0.5);
-        }
-        else
-        {
-            return modfRound(theValue);
-        }
+        // Positive and negative zero round to themselves.
+        return theValue;
     }
     else
     {
-        // Negative numbers are a special case.  Any time we
-        // have -0.5 as the fractional part, we have to
-        // round up (toward 0), rather than down.
+        // The integral and fractional parts delivered by modf are exact
+        // and carry the sign of the value, so nothing is rounded before
+        // the comparison, and a value in [-0.5, 0) yields negative zero,
+        // as the XPath recommendation requires.
         double          intPart = 0;
 
-        const double    fracPart = 
+        const double    fracPart =
             std::modf(theValue, &intPart);
 
-        const double    theAdjustedValue =
-            fracPart == -0.5 ? theValue + 0.5 : theValue - 0.5;
-
-        // If the value is greater than the minimum value for
-        // a long, this is the fastest way to do it.
-        if (theAdjustedValue > LONG_MIN)
+        if (theValue > 0)
         {
-            return long(theAdjustedValue);
+            return fracPart >= 0.5 ? std::ceil(theValue) : intPart;
         }
         else
         {
-            return modfRound(theAdjustedValue);
+            // Halfway cases round toward positive infinity.
+            return fracPart < -0.5 ? std::floor(theValue) : intPart;
         }
     }
 }
